@@ -4,6 +4,7 @@ CONSTANTS
   DEV_StaticRegistersCenter = FALSE
   DEV_ReassignKeepsOld = TRUE
   DEV_RemoveNeedsLanelets = FALSE
+  DEV_ForgetsCentre = FALSE
 INVARIANT InvInverseStatic
 INVARIANT InvInverseDynamic
 INVARIANT InvRemoveTotal
